@@ -2,6 +2,7 @@ package main
 
 import (
 	"fmt"
+	"go/constant"
 	"go/types"
 	"strings"
 
@@ -35,8 +36,28 @@ func cmdValue(v ssa.Value) bool {
 		return false
 	}
 	return originsAll(v, func(o Origin) bool {
-		return o.Kind == "zero" || isCallOrigin(o, ".GetCommand") || o.Kind == "param" && o.Val.Name() == "cmd"
+		return o.Kind == "zero" || isZeroConstOrigin(o) || isCallOrigin(o, ".GetCommand") || o.Kind == "param" && o.Val.Name() == "cmd"
 	})
+}
+
+// isZeroConstOrigin: the origin is a constant equal to the zero value of its type (what `var x T` holds).
+func isZeroConstOrigin(o Origin) bool {
+	k, ok := o.Val.(*ssa.Const)
+	if !ok || o.Kind != "const" {
+		return false
+	}
+	if k.Value == nil {
+		return true
+	}
+	switch k.Value.Kind() {
+	case constant.Int, constant.Float:
+		return constant.Sign(k.Value) == 0
+	case constant.String:
+		return constant.StringVal(k.Value) == ""
+	case constant.Bool:
+		return !constant.BoolVal(k.Value)
+	}
+	return false
 }
 
 // hasCtxFlag: v is the comma-ok flag of ctx.Value(gcpKey).(*gcpContext).
@@ -167,21 +188,39 @@ func checkC01(c *Ctx, w *World) {
 		c.check(imp, "C01.success-only", "bindSubConn call", p.ipos(s.Instr), "reached only when the call succeeded and the method's command is BIND", "a failed call or a non-BIND method can bind a key: "+wit)
 		// args: (gb, key, sc)
 		key, conn := s.Call.Args[1], s.Call.Args[2]
-		keyOK := false
-		for _, o := range origins(key) {
-			// element of the key list extracted from the reply
-			if u, ok := o.Val.(*ssa.UnOp); ok {
-				if ia, ok := u.X.(*ssa.IndexAddr); ok {
-					if e, ok := ia.X.(*ssa.Extract); ok && e.Index == 0 {
-						if call, ok := e.Tuple.(*ssa.Call); ok && strings.HasSuffix(calleeOf(&call.Call).Name(), ".getAffinityKeysFromMessage") {
-							if f, base, ok := loadedField(call.Call.Args[1]); ok && f == "gcpContext.replyMsg" && gcpCtxValue(base) {
-								keyOK = originsAll(call.Call.Args[0], func(o Origin) bool { return o.Kind == "const" || isCallOrigin(o, ".GetAffinityKey") })
-							}
-						}
-					}
+		// the key list extracted from this call's reply with the method's key path (a nil list has no elements)
+		isReplyKeys := func(v ssa.Value) bool {
+			n := 0
+			all := originsAll(v, func(o Origin) bool {
+				if isConstNilOrigin(o) {
+					return true
 				}
-			}
+				e, ok := o.Val.(*ssa.Extract)
+				if !ok || e.Index != 0 {
+					return false
+				}
+				call, ok := e.Tuple.(*ssa.Call)
+				if !ok || !strings.HasSuffix(calleeOf(&call.Call).Name(), ".getAffinityKeysFromMessage") {
+					return false
+				}
+				f, base, ok := loadedField(call.Call.Args[1])
+				if !ok || f != "gcpContext.replyMsg" || !gcpCtxValue(base) {
+					return false
+				}
+				n++
+				return originsAll(call.Call.Args[0], func(o Origin) bool { return o.Kind == "const" || isCallOrigin(o, ".GetAffinityKey") })
+			})
+			return all && n > 0
 		}
+		// every origin of the key is an element of that list
+		keyOK := originsAll(key, func(o Origin) bool {
+			u, ok := o.Val.(*ssa.UnOp)
+			if !ok {
+				return false
+			}
+			ia, ok := u.X.(*ssa.IndexAddr)
+			return ok && isReplyKeys(ia.X)
+		})
 		c.check(keyOK, "C01.args", "bind key", p.ipos(s.Instr), "key is an element of getAffinityKeysFromMessage(method's key path, reply message of this call)", "bound key is not extracted from this call's reply with the method's key path: "+originStrings(origins(key)))
 		f, base, isL := loadedField(conn)
 		c.check(isL && f == "subConnRef.subConn" && isSlot(base), "C01.args", "bind connection", p.ipos(s.Instr), "bound connection is the connection of the slot this call was placed on", "key is bound to a connection other than the one the call ran on: "+vstr(conn))
